@@ -8,7 +8,11 @@ Monitors on Element.lbasis / Element.gbasis fields:
    (rv.refmodel.geometry), against grad / div / curl / hess / grad3.. (each field is checked to
    be the derivative of the previous one in the chain);
  * nodality, partition of unity, H(div)/H(curl) lowest-order duality (facet flux / edge
-   circulation, own geometry), defining functionals of globally defined elements.
+   circulation, own geometry), defining functionals of globally defined elements;
+ * nearby queries: one element object (and one mapping object) asked at a sequence of point sets of equal shape
+   that differ by tiny amounts (relative 1e-6, 1e-9, one ulp, absolute 1e-9 at a vertex, one point only) delivers
+   what a fresh object delivers at those points (lbasis: the same bits; gbasis: up to rounding), and the difference
+   quotient (h ~ 1e-6, 1e-7) of the values that same object delivers is the derivative it delivered.
 """
 from __future__ import annotations
 
@@ -25,7 +29,9 @@ PID = "C09"
 RULE = ("every registry element (LinePp p<=6, QuadP p<=5) x every local index x random interior reference points; "
         "mapped level on random first-order meshes (affine, sheared, distorted multilinear, mirrored, renumbered), shared "
         "and per-cell point layouts, cell subsets; distinct key = (record, check kind, field, geometry class, layout); "
-        "non-trivial iff the reference derivative is not identically zero on the sample")
+        "non-trivial iff the reference derivative is not identically zero on the sample; nearby-queries: every registry "
+        "element incl. skeleton, wrappers and wrappers of the parametrised elements x a randomly ordered sequence of "
+        "perturbed point sets, non-trivial iff the fresh values at consecutive point sets differ")
 TRACK = ["skfem.element.element_h1:ElementH1.gbasis", "skfem.element.element_hdiv:ElementHdiv.gbasis",
          "skfem.element.element_hcurl:ElementHcurl.gbasis", "skfem.element.element_global:ElementGlobal.gbasis",
          "skfem.element.element_matrix:ElementMatrix.gbasis", "skfem.element.element_vector:ElementVector.gbasis",
@@ -34,11 +40,15 @@ TRACK = ["skfem.element.element_h1:ElementH1.gbasis", "skfem.element.element_hdi
          "skfem.element.element_quad.element_quadp:ElementQuadP.lbasis"]
 REQUIRED_MONITORS = ["ref-derivative", "mapped-grad", "mapped-div", "mapped-curl", "mapped-hess", "nodal-delta",
                      "partition-of-unity", "hdiv-flux-dual", "hcurl-circulation-dual", "global-dofs-dual",
-                     "layouts-agree"]
+                     "layouts-agree", "history-independent", "same-object-quotient"]
 REQUIRED_REACH = ["complex-step", "central-difference", "negative-det-cell", "per-cell-layout", "subset-tind",
                   "non-affine-cell", "higher-derivative-chain", "unsorted-triangle-cells",
                   "global-nodal-on-general-quadrilateral", "points-updated-in-place",
-                  "tind-with-repeated-cell", "parametrised-degree>=7", "every-local-function-of-large-elements"]
+                  "tind-with-repeated-cell", "parametrised-degree>=7", "every-local-function-of-large-elements",
+                  "nearby-query:lbasis", "nearby-query:gbasis", "nearby-query:relative-1e-6", "nearby-query:relative-1e-9",
+                  "nearby-query:one-ulp", "nearby-query:single-entry-one-ulp", "nearby-query:absolute-1e-9",
+                  "nearby-query:single-point-moved", "nearby-query:back-to-first", "nearby-query:per-cell-layout",
+                  "same-object-quotient:lbasis", "same-object-quotient:gbasis"]
 
 FD = ((1, 4 / 5), (2, -1 / 5), (3, 4 / 105), (4, -1 / 280))
 
@@ -341,10 +351,33 @@ def mapped_derivatives(ctx, k):
         e = rec.make() if fresh_each_call else elem
         return e.gbasis(mapping, Xp, i, use_tind)
 
+    shifted = {}
+
+    def gb_shifted(i, m, s):
+        """gbasis at X + s*hstep*e_m; one evaluation delivers every field of the chain, so it is kept for the
+        components and derivative levels of this local function (same difference formula as fdiff)."""
+        if shifted.get("i") != i:
+            shifted.clear()
+            shifted["i"] = i
+        if (m, s) not in shifted:
+            Y = X.copy()
+            if s > 0:
+                Y[m] += s * hstep
+            else:
+                Y[m] -= (-s) * hstep
+            shifted[(m, s)] = gb(Y, i)
+        return shifted[(m, s)]
+
     def phys_grad(getter, i):
         """grad_x of the array-valued function Xp -> getter(gbasis(Xp)) : derivative axis appended after the
         leading axes of the field; result (..., dim, ncells, npts)."""
-        dX = np.stack([fdiff(lambda Y: getter(gb(Y, i)), X, m, hstep) for m in range(d)])  # (dref, ..., nc, np)
+        dX = []
+        for m in range(d):
+            out = 0
+            for s, c in FD:
+                out = out + c * (np.asarray(getter(gb_shifted(i, m, s))) - np.asarray(getter(gb_shifted(i, m, -s))))
+            dX.append(out / hstep)
+        dX = np.stack(dX)  # (dref, ..., nc, np)
         return np.einsum("mkcq,m...cq->...kcq", invDF, dX)
 
     for i in idxs:
@@ -411,7 +444,8 @@ def mapped_derivatives(ctx, k):
         for i in range(N):
             if i in idxs:
                 continue
-            e_ = rec.make()
+            # globally defined elements invert one Vandermonde matrix per cell and object: the object of this case
+            e_ = elem if rec.family == "global" else rec.make()
             f0 = e_.gbasis(mapping, X1, i, ut1)
             for comp, f in enumerate(f0):
                 if f.grad is None or np.array(f).ndim != 2:
@@ -631,6 +665,321 @@ def global_dofs(ctx, k):
     ctx.sample({"elem": rec.name, "functionals": [f[1] for f in funcs], "cells": cells.tolist()}, per_family=1)
 
 
+# ------------------------------------------- nearby queries on one element object
+ALL_FIELDS = ("value", "grad", "div", "curl", "hess", "grad3", "grad4", "grad5", "grad6")
+QUOTIENT_STEPS = (2.0 ** -20, 2.0 ** -23)      # ~1e-6, ~1e-7: far above rounding, far below any feature of the functions
+
+
+def cached_wrappers():
+    """Wrappers around the parametrised elements (which tabulate per query): the wrapper delegates to the inner object."""
+    lp, qp = EL.by_name("ElementLinePp(3)"), EL.by_name("ElementQuadP(3)")
+    return [EL.dg(lp), EL.vector(lp, 2), EL.composite(lp, EL.by_name("ElementLineP1")),
+            EL.dg(qp), EL.vector(qp), EL.composite(EL.by_name("ElementQuad1"), EL.by_name("ElementQuadP(2)"))]
+
+
+def nearby_records():
+    out = []
+    for kind in G.KINDS:
+        out += EL.all_for_kind(kind)
+    return out + high_degree_records() + cached_wrappers()
+
+
+def nearby_sequence(rng, X0, ulp=True):
+    """Point sets of the shape of X0 that differ from X0 by tiny amounts, in random order: (tag, points)."""
+    flat = X0.reshape(-1)
+    one = X0.copy()
+    nz = np.flatnonzero(flat != 0)
+    j = int(rng.choice(nz))
+    one.reshape(-1)[j] = np.nextafter(flat[j], 2.0)
+    pt = X0.copy()
+    q = int(rng.integers(1, X0.shape[-1]))        # one whole point moves (relative 1e-6), all the others stay
+    pt[..., q] = X0[..., q] * (1 + 1e-6)
+    sg = rng.choice([-1.0, 1.0], size=X0.shape)
+    sg[..., 0] = 1.0                              # the vertex at the origin moves into the cell
+    seq = [("relative-1e-6", X0 * (1 + 1e-6)), ("relative-1e-9", X0 * (1 + 1e-9)),
+           ("one-ulp", np.nextafter(X0, 2.0)), ("single-entry-one-ulp", one),
+           ("absolute-1e-9", X0 + 1e-9), ("absolute-1e-6-mixed-signs", X0 + 2.0 ** -20 * sg),
+           ("single-point-moved", pt)]
+    if not ulp:
+        seq = [s_ for s_ in seq if "ulp" not in s_[0]]
+    order = rng.permutation(len(seq))
+    seq = [seq[o] for o in order]
+    seq.insert(int(rng.integers(2, len(seq) + 1)), ("back-to-first", X0.copy()))
+    return seq
+
+
+def _bitwise(a, b):
+    if a is None or b is None:
+        return a is None and b is None
+    a, b = np.asarray(a), np.asarray(b)
+    return a.shape == b.shape and np.array_equal(a, b, equal_nan=True)
+
+
+def _fields_of(f):
+    out = {}
+    for name in ALL_FIELDS:
+        a = np.array(f) if name == "value" else getattr(f, name, None)
+        if a is not None:
+            out[name] = np.asarray(a)
+    return out
+
+
+def _pick_indices(rng, N, m):
+    if N <= m:
+        return list(range(N))
+    return sorted({0, N - 1} | set(int(v) for v in rng.choice(N, size=m - 2, replace=False)))
+
+
+def fresh_mapping(mesh):
+    """A new mapping object (Mesh.mapping() hands out one remembered object per mesh)."""
+    from skfem.mapping import MappingAffine, MappingIsoparametric
+    if mesh.affine:
+        return MappingAffine(mesh)
+    return MappingIsoparametric(mesh, mesh.elem(), mesh.bndelem)
+
+
+def nearby_queries(ctx, k):
+    """Every delivered field is a function of the query point: ONE element object (and one mapping object) asked at a
+    sequence of point sets of equal shape that differ by tiny amounts returns, each time, exactly what a fresh object
+    returns at those points (second execution that must agree: same code, same input); and the difference quotient of
+    the values delivered by that same object at x+h, x-h (h ~ 1e-6, 1e-7) is the derivative it delivered at x."""
+    recs = nearby_records()
+    rec = recs[k % len(recs)]
+    rng = ctx.rng()
+    kind = rec.kind
+    d = GEO.REFDIM[kind]
+    base = rec.name.split("(")[0] if rec.name.startswith(("ElementLinePp(", "ElementQuadP(")) else rec.name
+    npts = 4
+    Xi = GEO.random_ref_points(rng, kind, npts)            # interior points (difference quotients)
+    X0 = Xi.copy()
+    X0[:, 0] = 0.0                                         # a vertex: absolute perturbations matter there
+    has_l = rec.family in ("h1", "hdiv", "hcurl", "matrix")
+    nmax = ctx.scale(5, 12)
+
+    # ---- reference level
+    if has_l:
+        e = rec.make()
+        N = nbfun(e)
+        idx = _pick_indices(rng, N, nmax)
+
+        def same_l(got, want):
+            return len(got) == len(want) and all(_bitwise(g, w) for g, w in zip(got, want))
+
+        def judge_l(got, Xs, i, tag):
+            # lbasis is elementwise arithmetic on the point array: the same input (same values, same memory layout)
+            # gives the same bits.  Should two FRESH objects ever disagree bitwise, bitwise agreement is not a sound
+            # demand for this element: fall back to a few units of rounding and count it.
+            want = rec.make().lbasis(Xs.copy(), i)
+            ok = same_l(got, want)
+            if not ok and not same_l(want, rec.make().lbasis(Xs.copy(), i)):
+                ctx.tolerated("history-independent")
+                ctx.drop("lbasis-not-bitwise-reproducible:" + base)
+                ok = len(got) == len(want) and all(
+                    (g is None and w is None) or np.allclose(np.asarray(g, dtype=float), np.asarray(w, dtype=float), rtol=0,
+                                                             atol=64 * 2.3e-16 * max(1.0, float(np.abs(np.asarray(w, dtype=float)).max())))
+                    for g, w in zip(got, want))
+            ctx.check("history-independent", ok, mech=f"nearby-query-returns-values-of-other-points:{base}",
+                      elem=rec.name, i=i, level="lbasis", perturbation=tag,
+                      worst=lambda: max(float(np.abs(np.asarray(g, dtype=float) - np.asarray(w, dtype=float)).max())
+                                        for g, w in zip(got, want)))
+            return want
+
+        prev = {i: judge_l(e.lbasis(X0.copy(), i), X0, i, "first-query") for i in idx}
+        for tag, Xs in nearby_sequence(rng, X0):
+            changed = False
+            for i in idx:
+                want = judge_l(e.lbasis(Xs.copy(), i), Xs, i, tag)
+                changed = changed or not same_l(want, prev[i])
+                prev[i] = want
+            ctx.reached("nearby-query:" + tag)
+            ctx.reached("nearby-query:lbasis")
+            if changed:
+                ctx.nontrivial(base, "nearby", "lbasis", tag)
+        if rec.family != "matrix" and not rec.skeleton:
+            for h in QUOTIENT_STEPS[:ctx.scale(1, 2)] if N > 30 else QUOTIENT_STEPS:
+                for i in idx:
+                    phi, dphi = e.lbasis(Xi.copy(), i)
+                    phi = np.asarray(phi)
+                    J = []
+                    for m in range(d):
+                        Xp, Xm = Xi.copy(), Xi.copy()
+                        Xp[m] += h
+                        Xm[m] -= h
+                        J.append((np.asarray(e.lbasis(Xp, i)[0]) - np.asarray(e.lbasis(Xm, i)[0])) / (Xp[m] - Xm[m]))
+                    J = np.stack([np.asarray(j_) * np.ones(npts) for j_ in J])
+                    if rec.family == "h1":
+                        ref = J
+                    elif rec.family == "hdiv":
+                        ref = sum(J[m][m] for m in range(d))
+                    elif d == 2:
+                        ref = J[0][1] - J[1][0]
+                    else:
+                        ref = np.stack([J[1][2] - J[2][1], J[2][0] - J[0][2], J[0][1] - J[1][0]])
+                    scale = max(1.0, float(np.abs(ref).max()), float(np.abs(phi).max()), float(np.abs(np.asarray(dphi)).max()))
+                    ctx.close("same-object-quotient", np.asarray(dphi) * np.ones(np.shape(ref)), ref, rtol=1e-5, scale=scale,
+                              mech=f"difference-quotient-of-delivered-values-is-not-the-delivered-derivative:{base}",
+                              elem=rec.name, i=i, h=h, level="lbasis")
+                    if np.abs(np.asarray(dphi)).max() > 0:
+                        ctx.nontrivial(base, "same-object-quotient", "lbasis", h)
+            ctx.reached("same-object-quotient:lbasis")
+
+    # ---- mapped level: one element object and one mapping object
+    if rec.family == "global":
+        mc = wellshaped(rng, kind, rec.mesh_req == "axis-parallel")
+    else:
+        mc = G.first_order(rng, kind)
+    mesh = mc.mesh
+    nt = mesh.t.shape[1]
+    cells = np.sort(rng.choice(nt, size=min(nt, 2), replace=False)).astype(np.int64)
+    percell = bool(rng.random() < 0.4) and rec.name != "ElementTriN3"
+    if percell:
+        lift = lambda Y: np.stack([Y[:, np.roll(np.arange(npts), c_)] for c_ in range(len(cells))], axis=1)
+        ctx.reached("nearby-query:per-cell-layout")
+    else:
+        lift = lambda Y: Y
+    e = rec.make()
+    mapping = mesh.mapping()
+    N = nbfun(e) if not hasattr(e, "elems") else sum(nbfun(e_) for e_ in e.elems)
+    idx = _pick_indices(rng, N, ctx.scale(4, 10))
+    is_global = rec.family == "global"
+
+    def fresh_eval(Y, i, cache={}):
+        # globally defined elements invert their Vandermonde matrices per object: one fresh object per point set
+        if is_global:
+            key = Y.tobytes()
+            if cache.get("key") != key:
+                cache.clear()
+                cache["key"], cache["obj"] = key, (rec.make(), fresh_mapping(mesh))
+            e_, mp_ = cache["obj"]
+        else:
+            e_, mp_ = rec.make(), fresh_mapping(mesh)
+        return [_fields_of(f) for f in e_.gbasis(mp_, Y.copy(), i, cells.copy())]
+
+    # mapped fields go through einsum reductions whose rounding depends on the memory layout of the operands: agreement
+    # up to rounding relative to the size of the field (one-ulp perturbations cannot be told from rounding there)
+    htol = 1e-9 if (is_global or "Global" in rec.name) else 1e-12
+
+    p, t = np.asarray(mesh.p), np.asarray(mesh.t)
+    Y0 = np.ascontiguousarray(lift(Xi))
+    invDF = GEO.inv(GEO.jacobian(kind, p, t, Y0, cells))       # (dref, dim, ncells, npts)
+    inorm = float(np.abs(invDF).max())
+    ORDER = {"value": 0, "grad": 1, "div": 1, "curl": 1, "hess": 2, "grad3": 3, "grad4": 4, "grad5": 5, "grad6": 6}
+
+    def gap(got, want):
+        """largest |got-want| / scale over the fields, the scale of a k-th derivative field being at least
+        max|value| |DF^-1|^k (a derivative that vanishes up to rounding is compared on the scale of the terms that
+        cancel in it); inf if the structure differs."""
+        if len(got) != len(want) or any(g.keys() != w.keys() for g, w in zip(got, want)):
+            return np.inf
+        worst = 0.0
+        for g, w in zip(got, want):
+            vs = max(float(np.nanmax(np.abs(w["value"]))), float(np.nanmax(np.abs(g["value"])))) if w["value"].size else 0.0
+            vs = vs if np.isfinite(vs) else 0.0
+            for n_ in w:
+                if g[n_].shape != w[n_].shape:
+                    return np.inf
+                if w[n_].size == 0:
+                    continue
+                fin = np.isfinite(w[n_])
+                if not np.array_equal(fin, np.isfinite(g[n_])) or not np.array_equal(g[n_][~fin], w[n_][~fin], equal_nan=True):
+                    return np.inf
+                if not fin.any():
+                    continue
+                sc = max(float(np.abs(w[n_][fin]).max()), float(np.abs(g[n_][fin]).max()), vs * inorm ** ORDER[n_])
+                err = float(np.abs(g[n_][fin] - w[n_][fin]).max())
+                if sc > 0:
+                    worst = max(worst, err / sc)
+        return worst
+
+    def history_eval(Y, i):
+        return [_fields_of(f) for f in e.gbasis(mapping, np.ascontiguousarray(Y).copy(), i, cells)]
+
+    seq = [("first-query", X0.copy())] + nearby_sequence(rng, X0, ulp=False)
+    if not ctx.thorough:
+        seq = seq[:4] if is_global else seq[:6]
+    prev = {}
+    for tag, Xs in seq:
+        changed = False
+        Y = np.ascontiguousarray(lift(Xs))
+        for i in idx:
+            got = history_eval(Y, i)
+            want = fresh_eval(Y, i)
+            r_ = gap(got, want)
+            ctx.check("history-independent", r_ <= htol, mech=f"nearby-query-returns-values-of-other-points:{base}",
+                      elem=rec.name, i=i, level="gbasis", perturbation=tag, percell=percell, mesh=mc.desc, worst=r_, tol=htol)
+            if r_ <= htol and r_ / htol > ctx.max_err.get("history-independent", 0.0):
+                ctx.max_err["history-independent"] = r_ / htol       # fraction of the tolerance used
+            changed = changed or (i in prev and gap(want, prev[i]) > 100 * htol)
+            prev[i] = want
+        if tag != "first-query":
+            ctx.reached("nearby-query:" + tag)
+            ctx.reached("nearby-query:gbasis")
+        if changed:
+            ctx.nontrivial(base, "nearby", "gbasis", tag, percell)
+    if rec.skeleton:
+        return
+    # difference quotients of the fields delivered by this same object, pushed to physical derivatives with the harness'
+    # own Jacobians
+    rtol = 1e-2 if (is_global or "Global" in rec.name) else 1e-4
+    h = QUOTIENT_STEPS[0]
+    for i in idx[:ctx.scale(3, 10)]:
+        f0 = [_fields_of(f) for f in e.gbasis(mapping, Y0.copy(), i, cells)]
+        fp, fm, dx = [], [], []
+        for m in range(d):
+            Yp, Ym = Y0.copy(), Y0.copy()
+            Yp[m] += h
+            Ym[m] -= h
+            fp.append([_fields_of(f) for f in e.gbasis(mapping, Yp, i, cells)])
+            fm.append([_fields_of(f) for f in e.gbasis(mapping, Ym, i, cells)])
+            dx.append(Yp[m] - Ym[m])
+
+        def phys(comp, name):
+            dX = np.stack([(fp[m][comp][name] - fm[m][comp][name]) / dx[m] for m in range(d)])
+            return np.einsum("mkcq,m...cq->...kcq", invDF, dX)
+
+        for comp, f in enumerate(f0):
+            val = f["value"]
+            if val.shape[-2:] != (len(cells), npts):
+                continue
+            Gx = phys(comp, "value")
+            vs = float(np.abs(val).max()) * inorm
+            tag_ = dict(elem=rec.name, i=i, comp=comp, h=h, level="gbasis", percell=percell, mesh=mc.desc)
+            mech = f"difference-quotient-of-delivered-values-is-not-the-delivered-derivative:{base}"
+            if "grad" in f:
+                ctx.close("same-object-quotient", f["grad"], Gx, rtol=rtol,
+                          scale=max(float(np.abs(Gx).max()), float(np.abs(f["grad"]).max()), vs, 1e-300), mech=mech, field="grad", **tag_)
+                if np.abs(f["grad"]).max() > 0:
+                    ctx.nontrivial(base, "same-object-quotient", "gbasis", "grad")
+            if "div" in f and val.ndim == 3:
+                ref = sum(Gx[n_, n_] for n_ in range(val.shape[0]))
+                ctx.close("same-object-quotient", f["div"], ref, rtol=rtol,
+                          scale=max(float(np.abs(Gx).max()), float(np.abs(f["div"]).max()), vs, 1e-300), mech=mech, field="div", **tag_)
+                if np.abs(f["div"]).max() > 0:
+                    ctx.nontrivial(base, "same-object-quotient", "gbasis", "div")
+            if "curl" in f and val.ndim == 3:
+                if val.shape[0] == 2:
+                    ref = Gx[1, 0] - Gx[0, 1]
+                else:
+                    ref = np.stack([Gx[2, 1] - Gx[1, 2], Gx[0, 2] - Gx[2, 0], Gx[1, 0] - Gx[0, 1]])
+                ctx.close("same-object-quotient", f["curl"], ref, rtol=rtol,
+                          scale=max(float(np.abs(Gx).max()), float(np.abs(f["curl"]).max()), vs, 1e-300), mech=mech, field="curl", **tag_)
+                if np.abs(f["curl"]).max() > 0:
+                    ctx.nontrivial(base, "same-object-quotient", "gbasis", "curl")
+            if "hess" in f and "grad" in f:
+                ref = phys(comp, "grad")
+                gs = float(np.abs(f["grad"]).max()) * inorm
+                ctx.close("same-object-quotient", f["hess"], ref, rtol=rtol,
+                          scale=max(float(np.abs(ref).max()), float(np.abs(f["hess"]).max()), gs, vs * inorm, 1e-300), mech=mech,
+                          field="hess", **tag_)
+    ctx.reached("same-object-quotient:gbasis")
+    ctx.sample({"elem": rec.name, "check": "nearby-queries", "mesh": mc.desc, "cells": cells.tolist(), "percell": percell,
+                "indices": idx[:6], "sequence": [s[0] for s in seq]}, per_family=2)
+
+
+def _n_nearby(ctx):
+    return len(nearby_records()) * ctx.scale(1, 6)
+
+
 def _n_ref(ctx):
     return 2 * (len([r for r in EL.registry() if r.family in ("h1", "hdiv", "hcurl") and not r.skeleton]) + len(high_degree_records()))
 
@@ -650,4 +999,5 @@ FAMILIES = [
     Family("mapped-derivatives", mapped_derivatives, _n_mapped, _n_mapped, budget={"quick": 90, "thorough": 900}),
     Family("duality", duality, 42, 840),
     Family("global-dofs", global_dofs, 22, 330),
+    Family("nearby-queries", nearby_queries, _n_nearby, _n_nearby, budget={"quick": 40, "thorough": 300}),
 ]
